@@ -54,9 +54,35 @@ func c06CostCfgs() []c06Cfg {
 	return out
 }
 
-// c06CostFamilies enumerates the families in a fixed order.
-func c06CostFamilies(n int, closers bool, f func(wlen int, u, v, x []byte)) {
-	c06PumpFamilies(n, closers, f)
+// c06Fam is a pumped family U V^k M W^k X (M, W empty for the one-part ones).
+type c06Fam struct{ U, V, M, W, X []byte }
+
+func (fm c06Fam) String() string {
+	if len(fm.M) == 0 && len(fm.W) == 0 {
+		return fmt.Sprintf("%q+%q*k+%q", fm.U, fm.V, fm.X)
+	}
+	return fmt.Sprintf("%q+%q*k+%q+%q*k+%q", fm.U, fm.V, fm.M, fm.W, fm.X)
+}
+
+func (fm c06Fam) pump(b []byte, k int) []byte {
+	b = append(b, fm.U...)
+	for i := 0; i < k; i++ {
+		b = append(b, fm.V...)
+	}
+	b = append(b, fm.M...)
+	if len(fm.W) > 0 {
+		for i := 0; i < k; i++ {
+			b = append(b, fm.W...)
+		}
+	}
+	return append(b, fm.X...)
+}
+
+// c06CostFamilies enumerates the families in a fixed order: the two-part and
+// two-token ones of c06_cost2.go first (wlen -1), then the one-part ones.
+func c06CostFamilies(n int, closers bool, f func(wlen int, fm c06Fam)) {
+	c06UnitFamilies(closers, func(fm c06Fam) { f(-1, fm) })
+	c06PumpFamilies(n, closers, func(wlen int, u, v, x []byte) { f(wlen, c06Fam{U: u, V: v, X: x}) })
 }
 
 func c06ThreadCPU() time.Duration {
@@ -127,25 +153,19 @@ func (cs *c06Coster) measure(g c06Cfg, src []byte) (m c06CostM, panicked any) {
 	return m, nil
 }
 
-func (cs *c06Coster) pump(u, v, x []byte, k int) []byte {
-	b := cs.buf[:0]
-	b = append(b, u...)
-	for i := 0; i < k; i++ {
-		b = append(b, v...)
-	}
-	b = append(b, x...)
-	cs.buf = b
-	return b
+func (cs *c06Coster) pump(fm c06Fam, k int) []byte {
+	cs.buf = fm.pump(cs.buf[:0], k)
+	return cs.buf
 }
 
 // probe judges one family under one configuration once. It returns a
 // description of the excess, or "".
-func (cs *c06Coster) probe(g c06Cfg, u, v, x []byte, k int) (string, any) {
-	small, pn := cs.measure(g, cs.pump(u, v, x, k))
+func (cs *c06Coster) probe(g c06Cfg, fm c06Fam, k int) (string, any) {
+	small, pn := cs.measure(g, cs.pump(fm, k))
 	if pn != nil {
 		return "", pn
 	}
-	big, pn := cs.measure(g, cs.pump(u, v, x, 4*k))
+	big, pn := cs.measure(g, cs.pump(fm, 4*k))
 	if pn != nil {
 		return "", pn
 	}
@@ -158,8 +178,8 @@ func (cs *c06Coster) probe(g c06Cfg, u, v, x []byte, k int) (string, any) {
 	if big.cpu >= c06CostMinCPU {
 		bs, bb := small.cpu, big.cpu
 		for i := 0; i < 2; i++ {
-			s2, _ := cs.measure(g, cs.pump(u, v, x, k))
-			b2, _ := cs.measure(g, cs.pump(u, v, x, 4*k))
+			s2, _ := cs.measure(g, cs.pump(fm, k))
+			b2, _ := cs.measure(g, cs.pump(fm, 4*k))
 			// best of 3 for the large input, worst of 3 for the small one:
 			// both choices can only hide noise, not create a suspect
 			bs, bb = max(bs, s2.cpu), min(bb, b2.cpu)
@@ -172,41 +192,61 @@ func (cs *c06Coster) probe(g c06Cfg, u, v, x []byte, k int) (string, any) {
 }
 
 // confirmed re-measures a suspect 5 times.
-func (cs *c06Coster) confirmed(g c06Cfg, u, v, x []byte, k int) bool {
+func (cs *c06Coster) confirmed(g c06Cfg, fm c06Fam, k int) bool {
 	for i := 0; i < 5; i++ {
-		if why, pn := cs.probe(g, u, v, x, k); why == "" && pn == nil {
+		if why, pn := cs.probe(g, fm, k); why == "" && pn == nil {
 			return false
 		}
 	}
 	return true
 }
 
-func c06CostKey(g c06Cfg, u, v, x []byte) string {
-	return fmt.Sprintf("superlinear [%s] %q (%q)^k %q", g, u, v, x)
+func (fm c06Fam) key() string {
+	if len(fm.M) == 0 && len(fm.W) == 0 {
+		return fmt.Sprintf("%q (%q)^k %q", fm.U, fm.V, fm.X)
+	}
+	return fmt.Sprintf("%q (%q)^k %q (%q)^k %q", fm.U, fm.V, fm.M, fm.W, fm.X)
 }
 
-func c06CostFail(g c06Cfg, u, v, x []byte, why string) *vc.Fail {
+func c06CostKey(g c06Cfg, fm c06Fam) string {
+	return fmt.Sprintf("superlinear [%s] %s", g, fm.key())
+}
+
+func c06CostFail(g c06Cfg, fm c06Fam, why string) *vc.Fail {
 	return &vc.Fail{
-		Key:   c06CostKey(g, u, v, x),
-		Msg:   fmt.Sprintf("%s of %q+%q*k+%q with %s: %s", c06Entries[g.Entry], u, v, x, g, why),
-		Class: c06CostClass(g, u, v, x),
+		Key:   c06CostKey(g, fm),
+		Msg:   fmt.Sprintf("%s of %s with %s: %s", c06Entries[g.Entry], fm, g, why),
+		Class: c06CostClass(g, fm.U, fm.V, fm.X),
 	}
+}
+
+func c06FamCase(fm c06Fam, ci int) *c06Case {
+	return &c06Case{Kind: "cost", U: fm.U, V: fm.V, M: fm.M, W: fm.W, X: fm.X, Cfg: ci, Text: fm.key()}
 }
 
 // c06CostCase is the replay entry for a cost case (single goroutine there).
 func c06CostCase(t c06Case) *vc.Fail {
 	cs := &c06Coster{parsers: map[int64]*syntax.Parser{}}
 	g := c06CostCfgs()[t.Cfg]
+	fm := c06Fam{U: t.U, V: t.V, M: t.M, W: t.W, X: t.X}
 	for _, k := range []int{256, 1024} {
-		why, pn := cs.probe(g, t.U, t.V, t.X, k)
+		why, pn := cs.probe(g, fm, k)
 		if pn != nil {
-			return &vc.Fail{Key: fmt.Sprintf("panic pumped [%s] %q (%q)^%d %q", g, t.U, t.V, 4*k, t.X), Msg: fmt.Sprintf("%s of %q+%q*k+%q (k<=%d) with %s panics: %v", c06Entries[g.Entry], t.U, t.V, t.X, 4*k, g, pn)}
+			return c06CostPanic(g, fm, k, pn)
 		}
-		if why != "" && cs.confirmed(g, t.U, t.V, t.X, k) {
-			return c06CostFail(g, t.U, t.V, t.X, why)
+		if why != "" && cs.confirmed(g, fm, k) {
+			return c06CostFail(g, fm, why)
 		}
 	}
 	return nil
+}
+
+func c06CostPanic(g c06Cfg, fm c06Fam, k int, pn any) *vc.Fail {
+	key := fmt.Sprintf("panic pumped [%s] %q (%q)^%d %q", g, fm.U, fm.V, 4*k, fm.X)
+	if len(fm.M) > 0 || len(fm.W) > 0 {
+		key = fmt.Sprintf("panic pumped [%s] %s k=%d", g, fm.key(), 4*k)
+	}
+	return &vc.Fail{Key: key, Msg: fmt.Sprintf("%s of %s (k<=%d) with %s panics: %v", c06Entries[g.Entry], fm, 4*k, g, pn)}
 }
 
 type c06CostLine struct {
@@ -253,17 +293,17 @@ func c06CostChild(c *vc.Ctx) bool {
 				t := curCase.Load()
 				g := cfgs[t.Cfg]
 				enc.Encode(c06CostLine{Case: t, Hang: true, Index: int(v >> 8),
-					Key: fmt.Sprintf("hang pumped [%s] %q (%q)^k %q", g, t.U, t.V, t.X),
-					Msg: fmt.Sprintf("%s of %q+%q*k+%q (k<=4096) with %s does not return within %s", c06Entries[g.Entry], t.U, t.V, t.X, g, limit)})
+					Key: fmt.Sprintf("hang pumped [%s] %s", g, t.Text),
+					Msg: fmt.Sprintf("%s of %s (k<=4096) with %s does not return within %s", c06Entries[g.Entry], c06Fam{U: t.U, V: t.V, M: t.M, W: t.W, X: t.X}, g, limit)})
 				out.Flush()
 				os.Exit(3)
 			}
 		}
 	}()
 	idx, probes := 0, 0
-	c06CostFamilies(n, deep, func(wlen int, u, v, x []byte) {
+	c06CostFamilies(n, deep, func(wlen int, fm c06Fam) {
 		ks := []int{256}
-		if deep && (wlen > 0 || len(x) == 0) {
+		if deep && (wlen > 0 || (wlen == 0 && len(fm.X) == 0)) {
 			ks = []int{256, 1024}
 		}
 		i := idx
@@ -272,7 +312,7 @@ func c06CostChild(c *vc.Ctx) bool {
 			return
 		}
 		for ci, g := range cfgs {
-			t := &c06Case{Kind: "cost", U: u, V: v, X: x, Cfg: ci, Text: fmt.Sprintf("%q (%q)^k %q", u, v, x)}
+			t := c06FamCase(fm, ci)
 			curCase.Store(t)
 			cur.Store(int64(i)<<8 | int64(ci))
 			for _, k := range ks {
@@ -281,14 +321,14 @@ func c06CostChild(c *vc.Ctx) bool {
 					enc.Encode(c06CostLine{Probes: probes})
 					out.Flush()
 				}
-				why, pn := cs.probe(g, u, v, x, k)
+				why, pn := cs.probe(g, fm, k)
 				if pn != nil {
-					enc.Encode(c06CostLine{Case: t, Key: fmt.Sprintf("panic pumped [%s] %q (%q)^%d %q", g, u, v, 4*k, x),
-						Msg: fmt.Sprintf("%s of %q+%q*k+%q (k<=%d) with %s panics: %v", c06Entries[g.Entry], u, v, x, 4*k, g, pn)})
+					fl := c06CostPanic(g, fm, k, pn)
+					enc.Encode(c06CostLine{Case: t, Key: fl.Key, Msg: fl.Msg})
 					break
 				}
-				if why != "" && cs.confirmed(g, u, v, x, k) {
-					fl := c06CostFail(g, u, v, x, why)
+				if why != "" && cs.confirmed(g, fm, k) {
+					fl := c06CostFail(g, fm, why)
 					enc.Encode(c06CostLine{Case: t, Key: fl.Key, Msg: fl.Msg, Class: fl.Class})
 					break
 				}
@@ -318,7 +358,7 @@ func c06CostPhase(c *vc.Ctx, s *c06SpaceT) bool {
 		fmt.Sscan(v, &n)
 		budget = time.Duration(n) * time.Second
 	}
-	deadline := time.Now().Add(budget * 2 / 5)
+	deadline := time.Now().Add(budget / 2)
 	deep := !c.Quick()
 	var wg sync.WaitGroup
 	var mu sync.Mutex
@@ -343,7 +383,7 @@ func c06CostPhase(c *vc.Ctx, s *c06SpaceT) bool {
 					return
 				}
 				stop := make(chan struct{})
-				go func() { // budget: the cost phase may use 40% of the run's time budget
+				go func() { // budget: the cost phase may use half of the run's time budget
 					for {
 						select {
 						case <-stop:
@@ -398,7 +438,7 @@ func c06CostPhase(c *vc.Ctx, s *c06SpaceT) bool {
 				mu.Lock()
 				complete = false
 				if c.Expired() || time.Now().After(deadline) {
-					c.CapNote("cost shard %d stopped by the time budget (40%% of the run's budget)", sh)
+					c.CapNote("cost shard %d stopped by the time budget (half of the run's budget)", sh)
 				} else {
 					// a fatal runtime error (stack exhaustion, out of memory) in the code under test
 					tail := stderr.String()
